@@ -558,6 +558,9 @@ impl FromStr for Level {
     fn from_str(s: &str) -> Result<Self, ParseLevelError> {
         s.parse::<usize>()
             .map_err(|_| ParseLevelError { _p: () })
+            // only the digits `1`..`5` themselves: `parse::<usize>` would also
+            // take a sign or leading zeros (`+3`, `003`)
+            .and_then(|num| if s.len() == 1 { Ok(num) } else { Err(ParseLevelError { _p: () }) })
             .and_then(|num| match num {
                 1 => Ok(Level::ERROR),
                 2 => Ok(Level::WARN),
@@ -781,6 +784,9 @@ impl FromStr for LevelFilter {
     fn from_str(from: &str) -> Result<Self, Self::Err> {
         from.parse::<usize>()
             .ok()
+            // only the digits `0`..`5` themselves: `parse::<usize>` would also
+            // take a sign or leading zeros (`+3`, `003`, `00`)
+            .filter(|_| from.len() == 1)
             .and_then(|num| match num {
                 0 => Some(LevelFilter::OFF),
                 1 => Some(LevelFilter::ERROR),
